@@ -24,7 +24,7 @@ CRASHY = False
 RUN_TIMEOUT = 300
 NO_SHRINK = {'program', 'prog', 'dim'}
 POOL_SEED = 20250927
-NPROG = {'quick': 12, 'thorough': 120}
+NPROG = {'quick': 14, 'thorough': 120}
 
 PROPS = {
     'C03': dict(
@@ -68,6 +68,8 @@ def _gen_eqs(t, arrays, allow_conv):
         eqs.append([cls, dest, srcs, float(t.int(1, 9))])
     if allow_conv:
         eqs.append(['TConv', t.choice(arrays), None, float(t.int(1, 9))])
+        if t.bool(0.4):
+            eqs.insert(0, ['TConv', t.choice(arrays), None, float(t.int(1, 9))])
     if not any(e[0] in ('TPost', 'TFull') for e in eqs) and t.bool(0.5):
         eqs.append(['TPost', eqs[0][1], None, float(t.int(1, 9))])
     return eqs
@@ -130,6 +132,23 @@ HANDCRAFTED = [
         _g(label='L1', iterate=1, min=1, max=3, cond=1, pre=1, post=1, update_nnps=1, sub=[
             _g(label='La', cond=1, pre=1, eqs=[['TInit', 'f', None, 5.0], ['TLoopNoSrc', 'f', None, 1.0]]),
             _g(label='Lb', post=1, real=0, eqs=[['TFull', 'g', ['g', 'f'], 3.0], ['TConv', 'g', None, 1.0]])])]),
+    # several convergence tests in one iterated group (all must hold, not any), on different destinations, with thresholds far apart
+    dict(arrays=['f', 'g'], env=dict(thresh=[300000.0, 999000.0, 999000.0, 300000.0]), groups=[
+        _g(iterate=1, min=0, max=6, pre=1, post=1, eqs=[['TConv', 'f', None, 1.0], ['TLoop', 'g', ['f'], 2.0], ['TConv', 'g', None, 3.0],
+                                                         ['TPost', 'f', None, 2.0]]),
+        _g(label='L1', iterate=1, min=1, max=5, eqs=[['TConv', 'g', None, 2.0], ['TConv', 'f', None, 5.0]])]),
+    # iterated parent whose sub-groups each hold a convergence test, one of them conditional; the parent asks for the update
+    dict(arrays=['f', 'g'], env=dict(thresh=[999000.0, 300000.0]), groups=[
+        _g(iterate=1, min=1, max=5, update_nnps=1, pre=1, sub=[
+            _g(label='La', eqs=[['TInit', 'f', None, 2.0], ['TConv', 'f', None, 1.0]]),
+            _g(label='Lb', cond=1, real=0, pre=1, eqs=[['TLoop', 'g', ['f', 'g'], 2.0], ['TConv', 'g', None, 3.0], ['TPost', 'g', None, 1.0]])]),
+        _g(label='L1', eqs=[['TReduce', 'f', None, 1.0], ['TReduce', 'g', None, 2.0]])]),
+    # destinations appearing first in later equations, no-source and sourced equations mixed, several py_initialize / reduce per group
+    dict(arrays=['f', 'g', 'k'], groups=[
+        _g(eqs=[['TLoopNoSrc', 'g', None, 1.0], ['TLoop', 'f', ['k', 'g'], 2.0], ['TPyInit', 'g', None, 3.0], ['TReduce', 'f', None, 1.0],
+                ['TInit', 'k', None, 2.0], ['TReduce', 'g', None, 4.0], ['TPyInit', 'f', None, 2.0], ['TLoopAll', 'g', ['f'], 1.0],
+                ['TPost', 'k', None, 1.0]]),
+        _g(label='L1', real=0, start=1, eqs=[['TInitPair', 'k', ['f', 'k'], 1.0], ['TFull', 'f', ['g'], 2.0], ['TReduce', 'k', None, 3.0]])]),
 ]
 
 
